@@ -445,7 +445,12 @@ class Model:
             n = S.int_n(s[2])
             if n == 1:
                 return Val("def", a.iv, a.ex, a.fx)
-            x = infl(ipow(a.iv, n), KT, sc)
+            x = ipow(a.iv, n)
+            if sc and not contains_zero(a.iv):
+                cond = n * hi_float(abs(iv.log(abs(a.iv))))
+                x = infl(x, 1, sc * KT * (1 + math.ceil(min(cond if math.isfinite(cond) else 1e6, 1e6))))
+            else:
+                x = infl(x, KT, sc)
             ex = None
             if a.ex is not None:
                 if (a.ex.numerator.bit_length() + a.ex.denominator.bit_length()) * n <= 4096:
@@ -571,8 +576,8 @@ class Model:
         else:
             lg = iv.log(m)
             r = iv.exp(lg / n)
-            if n == 3:
-                r = infl(r, KT, sc)
+            if False:
+                pass
             else:
                 extra = abs(lg) / n
                 r = infl(r, 1, sc * (KT * (1 + math.ceil(hi_float(extra)))))
@@ -595,10 +600,13 @@ class Model:
         if a.fx and a.ex == 0:
             return Val("def", _IV1, Fraction(1), True)
         if s[2] is None or b == math.e:
-            x = iv.exp(a.iv * self._ln_e())
+            e_ = a.iv * self._ln_e()
         else:
-            x = iv.exp(a.iv * iv.log(ivnum(b)))
-        x = infl(x, KT, sc)
+            e_ = a.iv * iv.log(ivnum(b))
+        x = iv.exp(e_)
+        # pow-family: an implementation may compute exp(x * log(b)); its error is proportional to |x ln b|
+        cond = hi_float(abs(e_))
+        x = infl(x, 1, sc * KT * (1 + math.ceil(min(cond if math.isfinite(cond) else 1e6, 1e6))))
         ex = None
         if a.ex is not None and a.ex.denominator == 1 and abs(a.ex) <= 256 and not (s[2] is None or b == math.e):
             fb = Fraction(b)
